@@ -281,6 +281,14 @@ impl Number {
                     .with_message("toFixed() digits argument must be between 0 and 100")
             })? as u8;
 
+        // `ryu-js` 1.0 prints wrong leading fraction digits for magnitudes below 2^-43 (it does not
+        // zero the 9-digit blocks it skips), e.g. `(1e-22).toFixed(22)`; format those from the exact
+        // decimal expansion instead.
+        if this_num != 0.0 && this_num.abs() < 1e-10 {
+            let string = small_f64_to_fixed(this_num, usize::from(precision));
+            return Ok(js_string!(string).into());
+        }
+
         let mut buffer = ryu_js::Buffer::new();
         let string = buffer.format_to_fixed(this_num, precision);
 
@@ -938,6 +946,33 @@ impl Number {
         let x = f64_to_int32(x);
         !x
     }
+}
+
+/// `toFixed` for `0 < |n| < 1e-10`: the exact decimal expansion rounded to `fraction_digits` (0 to 100)
+/// digits after the decimal point, picking the larger value when two are equally close.
+fn small_f64_to_fixed(n: f64, fraction_digits: usize) -> String {
+    let sign = if n < 0.0 { "-" } else { "" };
+    // Formatting with an explicit precision is exact; 1100 digits cover the smallest subnormal.
+    let exact = format!("{:.1100}", n.abs());
+    // `exact` is "0." followed by the fraction digits, the first ten of which are zeros.
+    let fraction = &exact.as_bytes()[2..];
+    let mut digits = fraction[..fraction_digits].to_vec();
+    if fraction[fraction_digits] >= b'5' {
+        // The carry stops at the latest in the leading zeros.
+        for digit in digits.iter_mut().rev() {
+            if *digit == b'9' {
+                *digit = b'0';
+            } else {
+                *digit += 1;
+                break;
+            }
+        }
+    }
+    if digits.is_empty() {
+        return format!("{sign}0");
+    }
+    let digits = String::from_utf8(digits).expect("decimal digits are ASCII");
+    format!("{sign}0.{digits}")
 }
 
 /// Helper function that formats a float as a ES6-style exponential number string.
